@@ -241,7 +241,7 @@ def container_cases(d: tuple) -> Iterator[tuple[str, str]]:
     zero = Quantity(0 * unit_expr(wrongv) if False else 0, dimension=dim_expr(wrongv))
     menu = {"g": (good, OK), "b": (bad, verdict(d, wrongv)), "z": (zero, OK)}
     tag = f"{vec(d)}<-seq"
-    for n in (1, 2, 3):
+    for n in ((1, 2, 3, 4) if _THOROUGH else (1, 2, 3)):
         for combo in itertools.product("gbz", repeat=n):
             vals = [menu[c][0] for c in combo]
             want = OK
@@ -455,7 +455,12 @@ def core_items(thorough: bool) -> list[tuple]:
     return items
 
 
+_THOROUGH = False
+
+
 def main(run: Run) -> int:
+    global _THOROUGH
+    _THOROUGH = run.thorough
     _setup()
     items = rotate(core_items(run.thorough), run.seed * 7919)
     n_pairs = sum(1 for k, _ in items if k == "pair")
